@@ -77,7 +77,7 @@ theorem param_change_authorised (s s' : State) (mode : Mode) (t : Tx) (ok : Bool
       s'.p.unstakingTime ≠ s.p.unstakingTime ∨ s'.p.window ≠ s.p.window ∨ s'.p.minSignedRaw ≠ s.p.minSignedRaw ∨
       s'.p.maxMemo ≠ s.p.maxMemo ∨ s'.p.jailDur ≠ s.p.jailDur ∨ s'.p.maxAge ≠ s.p.maxAge ∨
       s'.p.sfDouble ≠ s.p.sfDouble ∨ s'.p.sfDown ≠ s.p.sfDown ∨ s'.p.feeBase ≠ s.p.feeBase ∨
-      s'.p.txSigLimit ≠ s.p.txSigLimit ∨ s'.acl ≠ s.acl ∨ s'.daoOwner ≠ s.daoOwner ∨ s'.upgrade ≠ s.upgrade) :
+      s'.p.txSigLimit ≠ s.p.txSigLimit ∨ s'.p.feeMults ≠ s.p.feeMults ∨ s'.p.feeDefault ≠ s.p.feeDefault ∨ s'.acl ≠ s.acl ∨ s'.daoOwner ≠ s.daoOwner ∨ s'.upgrade ≠ s.upgrade) :
     mode = .deliver ∧ ok = true ∧ anteOK s t false = true ∧
     ((∃ src key val, t.msg = .changeParam src key val ∧ s.acl.lookup key = some src) ∨
      (∃ src h ver, t.msg = .upgrade src h ver ∧ s.acl.lookup "gov/upgrade" = some src)) := by
@@ -113,6 +113,7 @@ theorem change_only_that_key (s : State) (key val : String) :
     (key ≠ "pos/MinSignedPerWindow" → s'.p.minSignedRaw = s.p.minSignedRaw) ∧
     (key ≠ "auth/MaxMemoCharacters" → s'.p.maxMemo = s.p.maxMemo) ∧
     (key ≠ "auth/TxSigLimit" → s'.p.txSigLimit = s.p.txSigLimit) ∧
+    (key ≠ "auth/FeeMultipliers" → s'.p.feeMults = s.p.feeMults ∧ s'.p.feeDefault = s.p.feeDefault) ∧
     (key ≠ "pos/DowntimeJailDuration" → s'.p.jailDur = s.p.jailDur) ∧
     (key ≠ "pos/MaxEvidenceAge" → s'.p.maxAge = s.p.maxAge) ∧
     (key ≠ "pos/SlashFractionDoubleSign" → s'.p.sfDouble = s.p.sfDouble) ∧
